@@ -76,8 +76,45 @@ func allReadOnly(bad *[]string, steps *int, label string, v any) {
 	for _, m := range readOnlyMethods(rv) {
 		mm := m
 		*steps++
-		if s := probe(label+"."+mm, func() { rv.MethodByName(mm).Call(nil) }); s != "" {
+		if s := probe(label+"."+mm, func() {
+			for _, r := range rv.MethodByName(mm).Call(nil) {
+				printResult(r, 0) // what an accessor returns is printed and encoded by whoever asked for it
+			}
+		}); s != "" {
 			*bad = append(*bad, s)
+		}
+	}
+}
+
+// printResult calls String / ToBytes on a value an accessor returned and on the elements of a returned list
+func printResult(r reflect.Value, depth int) {
+	if !r.IsValid() || depth > 2 {
+		return
+	}
+	switch r.Kind() {
+	case reflect.Ptr, reflect.Interface, reflect.Slice, reflect.Map:
+		if r.IsNil() {
+			return
+		}
+	}
+	if r.CanInterface() {
+		for _, name := range []string{"String", "ToBytes", "Summary"} {
+			if m := r.MethodByName(name); m.IsValid() && m.Type().NumIn() == 0 {
+				m.Call(nil)
+			}
+		}
+	}
+	switch r.Kind() {
+	case reflect.Slice, reflect.Array:
+		if r.Type().Elem().Kind() == reflect.Uint8 {
+			return
+		}
+		for i := 0; i < r.Len() && i < 8; i++ {
+			printResult(r.Index(i), depth+1)
+		}
+	case reflect.Ptr, reflect.Interface:
+		if depth < 2 {
+			printResult(r.Elem(), depth+1)
 		}
 	}
 }
@@ -734,6 +771,7 @@ func concurMain(path string) {
 	sc := bufio.NewScanner(f)
 	sc.Buffer(make([]byte, 1<<20), 1<<24)
 	total := 0
+	nitem := 0
 	var mu sync.Mutex
 	var allBad []string
 	const G = 6
@@ -772,6 +810,7 @@ func concurMain(path string) {
 			}
 			collectOps = nil
 		}
+		nitem++
 		for i := range ops[0] {
 			var start, done sync.WaitGroup
 			start.Add(1)
@@ -780,6 +819,11 @@ func concurMain(path string) {
 					continue
 				}
 				op := ops[g][i]
+				if nitem%2 == 0 && g%2 == 1 {
+					// every other datagram: the goroutines work in pairs on ONE decoded value (reading a value from several
+					// goroutines - a handler and a logger, say - needs no lock as long as everybody only reads)
+					op = ops[g-1][i]
+				}
 				done.Add(1)
 				go func() {
 					defer done.Done()
